@@ -488,6 +488,11 @@ def r1cs_adversarial_cases(build, obs=()):
         if decode_expect(le_bytes(s_)).startswith('err'):
             ws, y = replay.ref_sqrt_ratio(1, 1)
             cases.append((f'r1cs:decode,{le(s_)}', ('re', r'^sat=false '), f'in-circuit decode of the invalid encoding {s_}'))
+    # a negative s with a second bit decomposition (s + q < 2^253): the non-canonical decomposition must be rejected
+    B_ = ref_B()
+    for k in (1, 2, 3, 5, 7, 11, 13, 22, 25, 30):
+        s0 = int.from_bytes(bytes.fromhex(enc_of_mul(k)), 'little'); sneg = (Q - s0) % Q
+        if sneg and sneg + Q < 2 ** 253: cases.append((f'r1cs:nonuniq,{le(sneg)}', 'honest=false attack=rejected', f'negative s = -encode([{k}]B) with the bit decomposition of s + q'))
     # off-curve / arbitrary witnessed coordinates
     for x, y in ((2, 3), (0, 0), (1, 1), (5, 0)): cases.append((f'r1cs:alloc,{le(x)},{le(y)}', 'sat=false', f'witness allocation with the off-curve coordinates ({x}, {y})'))
     B = ref_B()
